@@ -7,6 +7,7 @@
 //!   nsec3 <apex> <dnskey> <alg> <flags> <iters> <salt> <excl> <name>/<rtype> ..
 //!                                                => Ok <hash>/<next>/<bitmap> .. | Err n | Panic
 //!   hash <name> <iters> <salt>                   => <hash hex>
+//!   dedup <name>/<rtype>/<u|k>/<rdata> ..        => <name>/<rtype> ..   (SortedRecords' dedup)
 //! The record list of a case is the content of the SortedRecords vector, in its
 //! order.  The oracle works from the unsorted record set with its own
 //! canonical ordering, authoritative-name computation, bitmap parser, Base32hex
@@ -14,6 +15,7 @@
 use bytes::Bytes;
 use domain::base::iana::{Class, Nsec3HashAlgorithm};
 use domain::base::rdata::UnknownRecordData;
+use domain::base::cmp::CanonicalOrd;
 use domain::base::{Name, Record, Rtype, Serial, Ttl};
 use domain::dnssec::common::{nsec3_hash, Nsec3HashError};
 use domain::dnssec::sign::denial::nsec::{generate_nsecs, GenerateNsecConfig};
@@ -592,6 +594,42 @@ fn run_bitmap(out: &mut Out, ts: &[u16], ps: &[u16]) {
     }
 }
 
+/// SortedRecords::from_iter on records that may compare equal: no (owner, type)
+/// pair of the input may disappear.
+fn run_dedup(out: &mut Out, recs: &[(Labels, u16, bool, Vec<u8>)]) {
+    let mk = |x: &(Labels, u16, bool, Vec<u8>)| -> Record<N, D> {
+        let data: D = if x.2 {
+            ZoneRecordData::Ns(Ns::new(mk_name(&vec![x.3.clone()])))
+        } else {
+            ZoneRecordData::Unknown(UnknownRecordData::from_octets(Rtype::from_int(x.1), Bytes::from(x.3.clone())).unwrap())
+        };
+        Record::new(mk_name(&x.0), Class::IN, Ttl::from_secs(3600), data)
+    };
+    let mut v: Vec<(Record<N, D>, usize)> = recs.iter().enumerate().map(|(i, x)| (mk(x), i)).collect();
+    v.sort_by(|a, b| a.0.canonical_cmp(&b.0));
+    let items: Vec<String> = v.iter().map(|(_, i)| {
+        let x = &recs[*i];
+        let rd = if x.2 { wire(&vec![x.3.clone()]) } else { x.3.clone() };
+        format!("{}/{}/{}/{}", hex(&wire(&x.0)), x.1, if x.2 { "k" } else { "u" }, hex(&rd))
+    }).collect();
+    let case = format!("dedup {}", items.join(" "));
+    out.begin(&case);
+    let res = catch_mut(|| {
+        let s = SortedRecords::<N, D>::from_iter(recs.iter().map(mk));
+        s.iter().map(|r| (labels_of_wire(r.owner().as_slice()), r.rtype().to_int())).collect::<Vec<_>>()
+    });
+    match res {
+        Err(e) => { out.case(&case, "Panic", true, "dedup"); out.check(false, "panic_sorted_records", &case, &e); }
+        Ok(got) => {
+            let obs: Vec<String> = got.iter().map(|(n, t)| format!("{}/{}", hex(&wire(n)), t)).collect();
+            out.case(&case, &if obs.is_empty() { "-".to_string() } else { obs.join(" ") }, recs.len() > 1, "dedup");
+            let want: BTreeSet<(Vec<u8>, u16)> = recs.iter().map(|x| (wire(&lower(&x.0)), x.1)).collect();
+            let have: BTreeSet<(Vec<u8>, u16)> = got.iter().map(|(n, t)| (wire(&lower(n)), *t)).collect();
+            out.check(want == have, "sorted_records_drops_type", &case, &format!("{} (owner, type) pairs in, {} out", want.len(), have.len()));
+        }
+    }
+}
+
 fn main() {
     let a = args();
     let mut out = Out::new(&a, "C13", 60);
@@ -654,6 +692,27 @@ fn main() {
         idx += 1;
         if !out.wants(idx) { continue; }
         run_bitmap(&mut out, &ts, &ps);
+    }
+    // SortedRecords dedup cases
+    let n_dd = if a.thorough { 3000 } else { 200 } * a.scale;
+    let fixed_dd: Vec<Vec<(Labels, u16, bool, Vec<u8>)>> = vec![
+        vec![(l(&["a"]), 65280, false, vec![1]), (l(&["a"]), 65281, false, vec![1])],
+        vec![(l(&["a"]), 43, false, vec![1]), (l(&["a"]), 99, false, vec![1]), (l(&["A"]), 99, false, vec![1])],
+        vec![(l(&["a"]), 2, true, b"n".to_vec()), (l(&["A"]), 2, true, b"n".to_vec()), (l(&["a"]), 2, false, vec![1, b'n', 0])],
+        vec![],
+    ];
+    for i in 0..n_dd + fixed_dd.len() as u64 {
+        let recs = if (i as usize) < fixed_dd.len() { fixed_dd[i as usize].clone() } else {
+            let k = r.range(1, 6);
+            (0..k).map(|_| {
+                let owner = match r.below(4) { 0 => l(&["a"]), 1 => l(&["A"]), 2 => l(&["b", "a"]), _ => l(&["a"]) };
+                if r.chance(1, 5) { (owner, 2u16, true, r.pick(&[&b"n"[..], b"m"]).to_vec()) }
+                else { (owner, *r.pick(&[1u16, 2, 16, 17, 65280, 65281]), false, r.pick(&[&[1u8][..], &[2], &[1, b'n', 0], &[]]).to_vec()) }
+            }).collect()
+        };
+        idx += 1;
+        if !out.wants(idx) { continue; }
+        run_dedup(&mut out, &recs);
     }
     out.finish(&[]);
 }
